@@ -192,7 +192,7 @@ def concretize(case, rule):
     return dict(old=old, new=new, entries=entries, unreliable=unreliable)
 
 
-def synth_diff(entries, U, name="f.js"):
+def synth_diff(entries, U, name="f.js", rename_from=None):
     """Unified diff in git's format for the edit script (git-normal form)."""
     # typed lines with old/new numbering
     typed = []
@@ -227,7 +227,12 @@ def synth_diff(entries, U, name="f.js"):
             start = x - U
         last = x
     hunks.append((start, min(len(typed), last + U + 1)))
-    out = ["diff --git a/%s b/%s" % (name, name), "index 1111111..2222222 100644", "--- a/%s" % name, "+++ b/%s" % name]
+    if rename_from:
+        # the file was renamed and edited: git names the OLD path on the --- side
+        out = ["diff --git a/%s b/%s" % (rename_from, name), "similarity index 70%", "rename from %s" % rename_from,
+               "rename to %s" % name, "index 1111111..2222222 100644", "--- a/%s" % rename_from, "+++ b/%s" % name]
+    else:
+        out = ["diff --git a/%s b/%s" % (name, name), "index 1111111..2222222 100644", "--- a/%s" % name, "+++ b/%s" % name]
     for (a, b) in hunks:
         old_before = sum(1 for t in typed[:a] if t[0] in " -")
         new_before = sum(1 for t in typed[:a] if t[0] in " +")
@@ -314,12 +319,12 @@ def replay(chk, cases, what, U_of=lambda ci: (0, 1, 3)[ci % 3], cli_sample=0):
     for ci, case in enumerate(cases):
         conc = concretize(case, rule)
         U = U_of(ci)
-        diff = synth_diff(conc["entries"], U)
+        diff = synth_diff(conc["entries"], U, rename_from=("old_dir/was_f.js" if ci % 4 == 3 else None))
         new_text = "\n".join(conc["new"]) + "\n"
         files = {"f.js": new_text}
         base = {"files": files, "diff": diff, "terminal": False}
         ids = {}
-        for mode, args in (("list", ["list"]), ("run", [])) + ((("glob", ["f.js"]),) if what == "C02" else ()):
+        for mode, args in (("list", ["list"]), ("run", [])) + ((("glob", ["f.js"]), ("globmiss", ["elsewhere/*.js"])) if what == "C02" else ()):
             cid = "%d-%s" % (ci, mode)
             batch.append(dict(base, id=cid, args=args))
             ids[mode] = cid
@@ -367,6 +372,7 @@ def replay(chk, cases, what, U_of=lambda ci: (0, 1, 3)[ci % 3], cli_sample=0):
             rs = {m: cres["%d-%s" % (ci, m)] for m in ("list", "run")}
             if what == "C02":
                 rs["glob"] = None
+                rs["globmiss"] = None
             judge_case(chk, what, case, conc, diff, U, rs, "cli+git")
             # CLI and in-process must agree
             for m in ("list", "run"):
@@ -479,6 +485,14 @@ def judge_case(chk, what, case, conc, diff, U, rs, via):
     zline = len(conc["new"]) - 2
     if by_line.get(zline):
         chk.violation("%s: untouched far block zz reported in diff mode" % via, {"abstract": case, "concrete": conc_case})
+    if what == "C02" and rs.get("globmiss") is not None:
+        # a path argument that matches nothing must not take the diff's own files out of scope
+        rm = rs["globmiss"]
+        if (rm["outcome"], rm["exit"], _norm(rm["report"])) != (rr["outcome"], rr["exit"], _norm(rr["report"])):
+            chk.violation("%s: with a path argument that does not match the diff's file the touched blocks are no longer validated" % via,
+                          {"abstract": case, "concrete": dict(conc_case, args=["elsewhere/*.js"]),
+                           "with_arg": {k: rm.get(k) for k in ("outcome", "exit", "report")},
+                           "without": {k: rr.get(k) for k in ("outcome", "exit", "report")}})
     if what == "C02" and rs.get("glob") is not None:
         rg = rs["glob"]
         gd = (rg["report"] or {}).get("f.js") or []
